@@ -84,6 +84,7 @@ type Obj struct {
 	Buf  *ByteBuf // byte buffer objects (several Obj may share one ByteBuf: mappings of one file)
 	Name string
 	Dead bool // unmapped view
+	Uninit bool // package-level variable whose initialiser was not executed (init skipped or cut short)
 	Lim  int  // view length in bytes (0: whole buffer)
 }
 
@@ -448,6 +449,9 @@ func (p *Path) load(ptr *Ptr, t types.Type) Value {
 	if ptr.Obj == nil {
 		p.goPanicRuntime("invalid memory address or nil pointer dereference")
 	}
+	if ptr.Obj.Uninit {
+		panic(p.unsupported("read of %s, whose package initialisation is not executed by the engine", ptr.Obj.Name))
+	}
 	if ptr.Obj.Buf != nil {
 		return p.loadBytes(ptr.Obj, ptr.Off, t)
 	}
@@ -583,6 +587,9 @@ func (p *Path) storeBytes(o *Obj, off *Term, t types.Type, v Value) {
 func (p *Path) store(ptr *Ptr, t types.Type, v Value) {
 	if ptr.Obj == nil {
 		p.goPanicRuntime("invalid memory address or nil pointer dereference")
+	}
+	if ptr.Obj.Uninit {
+		ptr.Obj.Uninit = false
 	}
 	if ptr.Obj.Buf != nil {
 		p.storeBytes(ptr.Obj, ptr.Off, t, v)
